@@ -324,7 +324,7 @@ struct Interp : World<Spline, TM, SM>
         if (af == 5)
         {
             // condition-based failure: the running cost fails on every sample of two (or one) segments
-            const int N = m.prob.N();
+            const int N = std::min(m.prob.N(), 62); // (the mask has 64 bits; long trajectories fail in their first 62 segments)
             ca.abort_seg_mask = (1ULL << (abort_call % N)) | (1ULL << ((abort_call / 7) % N));
         }
         long total = ca.abort_functor == 3 ? (long)m.prob.N() * (m.K + 1) : 1;
